@@ -405,7 +405,9 @@ struct H {
         }
         return true;
     }
-    static double bound(int p) { return p == VNACAL_MAX_PRECISION ? 0.0 : 0.6 * std::pow(10.0, 1 - p); }
+    // 0.5 * 10^(1-p) is the rounding of the p-digit mantissa; reading the decimal back costs up to half an ulp
+    // (1.1e-16), which the 0.1 * 10^(1-p) of slack covers for p <= 15 only -- hence the additive term
+    static double bound(int p) { return p == VNACAL_MAX_PRECISION ? 0.0 : 0.6 * std::pow(10.0, 1 - p) + 1.2e-16; }
     void near(double got, double ref, int p, const char *code, const char *what, const std::string &where) {
         if (p == VNACAL_MAX_PRECISION) { PBT_CHECK(c, cf::same_bits(got, ref), code, "save #%d %s: %s = %a, in memory %a (not bit-exact at VNACAL_MAX_PRECISION)", saves, where.c_str(), what, got, ref); return; }
         double d = cf::rel_dev(got, ref), b = bound(p);
